@@ -255,16 +255,18 @@ def repo_location(ex, linemap, f, repo=REPO):
     return name, '%s:%d (%s)' % (path, rline, name)
 
 
-def deep_probe(tier):
+def deep_probe(tier, kinds=None):
     """Bounded stand-in for the two things the Verus unit does not model: the machine stack and the
     progress guard's fuel (a Cell mutated through &self).  Every nesting construct at depths around
     and far beyond MAX_DEPTH, on the real crate, in a 2 MiB thread."""
-    ns = (99, 100, 101, 250, 5000, 120000) if tier == 'quick' else (50, 99, 100, 101, 102, 150, 250, 1000, 5000, 50000, 200000)
+    ns = (40, 99, 100, 101, 250, 5000, 120000) if tier == 'quick' else (40, 50, 70, 99, 100, 101, 102, 150, 250, 1000, 5000, 50000, 200000)
     ran = 0
     for nm, _, _, _ in witness.DEEP:
         for n in ns:
             w = witness.run_one(witness.deep_input(nm, n))
             ran += 1
+            if w and kinds and w['kind'] not in kinds:
+                w = None
             if w:
                 w['input_recipe'] = '%s x %d' % (nm, n)
                 w['input'] = w['input'][:300]
@@ -332,6 +334,10 @@ def main(prop, tier):
         f['fn'] = fn
         f['id'] = obligation_id('parser', fn, f)
         f['props'] = sorted(classify(f))
+        if fn in ('Parser::eof', 'Parser::nth', 'Parser::at', 'Parser::at_any', 'Parser::eat', 'Parser::expect'):
+            # the look-ahead / end-of-input primitives carry both properties: `module` consumes every token (C01)
+            # and every loop terminates (C02) only because these say what they say
+            f['props'] = ['C01', 'C02']
         (mine if prop in f['props'] else others).append(f)
 
     # functions without an explicit contract that are involved in a failure: "needs contract", not "bug"
@@ -374,6 +380,15 @@ def main(prop, tier):
                                         './check %s --replay <this file>' % prop)
                     violations.append((path, True))
         if prop == 'C01':
+            w, ran = deep_probe(tier, kinds=('lossy', 'error-range'))
+            bounded.append({'what': 'deep-nesting inputs (unclosed / balanced / mixed / followed by another item) on the real crate: tree text == input',
+                            'bound': 'constructs=%d depths per construct: see tools/prop_parser.py deep_probe (%s tier)' % (len(witness.DEEP), tier),
+                            'inputs_run': ran, 'failed': bool(w)})
+            if w:
+                oblig = 'parser :: bounded-check :: lossless :: deep nesting :: %s' % w.get('input_recipe')
+                path = write_replay(prop, oblig, 'crates/syntax/src/parser.rs', 'native driver (bounded stand-in, real crate)',
+                                    w['observed'], w, './check %s --replay <this file>' % prop)
+                violations.append((path, True))
             k, budget = (2, 60) if tier == 'quick' else (3, 420)
             w, n = witness.enumerate_inputs(k, budget, seed())
             bounded.append({'what': 'end-to-end losslessness of parse_module (lexer + parser + tree builder + rowan) on enumerated token-class sequences in 9 contexts',
